@@ -179,7 +179,14 @@ func accountsGenMut(r *Rng, dirs, files, links, missing []string) accountsMut {
 	if len(links) == 0 && m.Path == "" {
 		m.Path = "made"
 	}
-	m.Path = accountsSpell(r, m.Path)
+	raw := m.Path
+	m.Path = accountsSpell(r, raw)
+	// a trailing slash says "directory" (POSIX): for the file-like kinds such a path is a contradictory
+	// request (the code then makes the directory and puts the object inside it under its own name);
+	// that spelling is kept for the directory and permissions kinds only
+	if strings.HasSuffix(m.Path, "/") && m.Type != "directory" && m.Type != "permissions" {
+		m.Path = "/" + raw
+	}
 	return m
 }
 
@@ -443,7 +450,7 @@ func accountsRunE2E(c accountsCase) []Step {
 	if out.Err != nil {
 		// a failed build promises nothing; it is recorded so that the histogram shows how often it happens
 		tags["e2e:build-failed"] = struct{}{}
-		return []Step{{Line: "acc.e2e\tfailed", Go: "-", Desc: desc + " => build failed: " + firstLine(out.Err.Error()), Tags: accountsTags(tags), Mode: "verdict", NoImpl: true, Trivial: true}}
+		return []Step{{Line: "acc.e2e\tacc\tfailed", Go: "-", Desc: desc + " => build failed: " + firstLine(out.Err.Error()), Tags: accountsTags(tags), Mode: "verdict", NoImpl: true, Trivial: true}}
 	}
 	var idx accountsLayout
 	var man accountsManifest
@@ -512,14 +519,26 @@ func accountsRunE2E(c accountsCase) []Step {
 	toks = append(toks, shipped...)
 	toks = append(toks, "cu,"+hx(cfg.Config.User), "pw,"+hx(passwdText), "gr,"+hx(groupText), "opw,"+hx(opw), "ogr,"+hx(ogr))
 	tags["e2e:built"] = struct{}{}
-	return []Step{{
-		Line:   "acc.e2e\t" + strings.Join(toks, "\t"),
+	obs := strings.Join(toks, "\t")
+	steps := []Step{{
+		Line:   "acc.e2e\tacc\t" + obs,
 		Go:     "-",
-		Desc:   desc + fmt.Sprintf(" => config.User=%q", cfg.Config.User),
+		Desc:   desc + fmt.Sprintf(" => config.User=%q [accounts]", cfg.Config.User),
 		Tags:   accountsTags(tags),
 		Mode:   "verdict",
 		NoImpl: true,
 	}}
+	for k, m := range c.Muts {
+		steps = append(steps, Step{
+			Line:   fmt.Sprintf("acc.e2e\t%d\t%s", k, obs),
+			Go:     "-",
+			Desc:   desc + " [layer entry of " + m.desc() + "]",
+			Tags:   []string{"e2e:layer:" + m.Type},
+			Mode:   "verdict",
+			NoImpl: true,
+		})
+	}
+	return steps
 }
 
 func (accountsSuite) Gen(r *Rng, i int, tier string) any {
